@@ -1871,6 +1871,73 @@ impl Gen {
         }
     }
 
+    // ---- (q) rich state: many routes and mounts, registered in no particular order, BEFORE the rare event
+    // (a middleware registration rebuilding every slot, a clone, a re-registration); then every entry is probed
+    fn rich_scenario(&mut self) {
+        self.push("reset", "");
+        let n_routes = self.rng.range(12, 40);
+        let mut names: Vec<String> = (0..n_routes).map(|i| format!("/{}{}", ["zeta", "alpha", "Mid", "k", "é", "omega"][self.rng.below(6) as usize], i * 7 % 31)).collect();
+        self.rng.shuffle(&mut names);
+        let mut ops: Vec<(u8, String)> = names.iter().map(|n| (0u8, n.clone())).collect();
+        // overlapping mounts: "first registered that matches" is decided among /m, /m/a, /m/a/b in shuffled order
+        for p in ["/m", "/m/a", "/m/a/b", "", "/zeta3"] {
+            ops.push((1, p.to_string()));
+            ops.push((2, p.to_string()));
+        }
+        self.rng.shuffle(&mut ops);
+        for (k, p) in &ops {
+            let id = self.fresh();
+            self.push(["route", "reg", "struct"][*k as usize], &format!("{} {}", shex(p), id));
+        }
+        for round in 0..self.rng.range(1, 3) {
+            match self.rng.below(3) {
+                0 => self.push("clone", ""),
+                1 => {
+                    let p = self.rng.pick(&names).clone();
+                    let id = self.fresh();
+                    self.push("route", &format!("{} {}", shex(&p), id));
+                }
+                _ => {}
+            }
+            let id = 8 * (100 + self.fresh()) + self.rng.below(5);
+            self.push("mw", &id.to_string());
+            if round == 0 || self.rng.chance(1, 2) {
+                for n in names.clone() {
+                    self.push("get", &shex(&n));
+                }
+                for p in ["/m", "/m/a", "/m/a/b", "/m/a/b/c", "/m/x", "/mx", "/zeta3/q", "/nothing/here"] {
+                    self.push("get", &shex(p));
+                }
+            }
+        }
+    }
+
+    // ---- (r) positive siblings of "too deep / too long": registry functions and exact routes that EXIST at depth
+    // 17..64 and at 4 KB, found and handed the full pointer
+    fn deep_positive(&mut self) {
+        let depth = *self.rng.pick(&[16u64, 17, 18, 20, 21, 40, 64]);
+        let mut tail = String::new();
+        for i in 0..depth {
+            tail.push('/');
+            tail.push_str(["a", "bb", "k9", "é", "seg"][((i + depth) % 5) as usize]);
+        }
+        let pre = *self.rng.pick(&["/api", "", "/a/b", "/é"]);
+        self.push("match", &format!("reg {} {}", shex(pre), shex(&format!("{}{}", pre, tail))));
+        // an exact route at that deep path next to mounts that cover it
+        self.push("reset", "");
+        let (i1, i2, i3) = (self.fresh(), self.fresh(), self.fresh());
+        let full = format!("/deep{}", tail);
+        self.push("reg", &format!("{} {}", shex("/deep"), i1));
+        self.push("route", &format!("{} {}", shex(&full), i2));
+        self.push("struct", &format!("{} {}", shex(""), i3));
+        self.push("get", &shex(&full));
+        self.push("get", &shex(&format!("{}/x", full)));
+        let long = format!("/{}", "L".repeat(4000));
+        let i4 = self.fresh();
+        self.push("route", &format!("{} {}", shex(&long), i4));
+        self.push("get", &shex(&long));
+    }
+
     // ---- (ii) prefix / path pairs
     fn prefix_pairs(&mut self) {
         const PRE: &[&str] = &["", "/", "/api", "api", "/api/", "/a/b", "//", "/é", "/api//", "/a~1b", "a/b", "/a", "/x/y/z", "///"];
@@ -2215,6 +2282,12 @@ fn generate(args: &Args) -> Vec<String> {
     for _ in 0..n_scen {
         g.scenario();
     }
+    for _ in 0..(if thorough { 300 } else { 12 }) {
+        g.rich_scenario();
+    }
+    for _ in 0..(if thorough { 400 } else { 20 }) {
+        g.deep_positive();
+    }
     for _ in 0..n_pairs {
         g.prefix_pairs();
     }
@@ -2291,10 +2364,110 @@ fn generate(args: &Args) -> Vec<String> {
     g.lines
 }
 
+// ------------------------------------------------------------------------------------------
+// (n) which public entry points of the anchored files this harness drives
+// ------------------------------------------------------------------------------------------
+/// (file, names driven by some op of this family)
+const DRIVEN: &[(&str, &[&str])] = &[
+    ("src/server.rs", &[
+        "run", "ctx", "peer", // Next
+        "new", "json", "beve", "utf8", "raw_binary", // TypedResponse (and Router::new / Server::new)
+        "other", "poisoned", // LockError (poisoned: through the std locks)
+        "with_json", "with", "with_erased_handler", "with_middleware", "register_middleware", "with_typed", "with_typed_slice", "with_typed_slice_ref",
+        "with_json_ctx", "with_typed_ctx", "with_json_blocking", "with_json_ctx_blocking", "with_typed_blocking", "with_typed_ctx_blocking", "with_handler",
+        "with_struct_shared", "register_struct_shared", "with_struct", "register_struct", "with_registry", "register_registry", "get",
+        "read_timeout", "write_timeout", "tcp_nodelay", "listen", "serve",
+    ]),
+    ("src/async_server.rs", &["new", "read_timeout", "write_timeout", "listen", "serve"]),
+    ("src/json_pointer.rs", &["parse", "evaluate"]),
+    ("src/server_request.rs", &["route", "route_request_view", "dispatch_view"]), // pub(crate): through the TCP servers
+    ("repe-derive/src/lib.rs", &["derive_repe_struct"]),
+    ("src/structs.rs", &["code", "path_from_segments"]),
+];
+/// (file, name, why not)
+const NOT_DRIVEN: &[(&str, &str, &str)] = &[
+    ("src/server.rs", "stop", "no handle is left once `serve(self)` owns the server"),
+    ("src/server_request.rs", "dispatch", "owned twin used by the WebSocket off-reader path only: driven by the C03/C16 families; in-process `handle_with_ctx` + the same error mapping is what this family compares"),
+    ("src/structs.rs", "join_path", "builds error-message text only"),
+    ("src/structs.rs", "prepend_path", "builds error-message text only"),
+];
+
+fn source_entry_points(rel: &str) -> Vec<String> {
+    let repo = std::env::var("VERIF_REPO").unwrap_or_else(|_| "/repo".into());
+    let text = std::fs::read_to_string(std::path::Path::new(&repo).join(rel)).unwrap_or_default();
+    let text = text.split("#[cfg(test)]").next().unwrap_or("").split("#[cfg(all(test").next().unwrap_or("").to_string();
+    let mut names: Vec<String> = Vec::new();
+    for line in text.lines() {
+        let t = line.trim_start();
+        for pre in ["pub async fn ", "pub fn ", "pub(crate) fn ", "pub(crate) async fn "] {
+            if let Some(rest) = t.strip_prefix(pre) {
+                let name: String = rest.chars().take_while(|c| c.is_alphanumeric() || *c == '_').collect();
+                if !name.is_empty() && !names.contains(&name) {
+                    names.push(name);
+                }
+            }
+        }
+    }
+    names
+}
+
+/// Anything public in the anchored files that is neither driven nor excused goes to stats.json (`not_driven`) and stderr.
+fn entry_point_audit(out: &mut Out) {
+    let mut missing = Vec::new();
+    let mut total = 0;
+    for (file, driven) in DRIVEN {
+        for name in source_entry_points(file) {
+            total += 1;
+            let excused = NOT_DRIVEN.iter().any(|(f, n, _)| f == file && *n == name);
+            if !driven.contains(&name.as_str()) && !excused {
+                eprintln!("fam_router: public entry point {}::{} is not driven by this harness", file, name);
+                out.count(&format!("NOT_DRIVEN.{}.{}", file, name));
+                missing.push(format!("{}::{}", file, name));
+            }
+        }
+    }
+    out.extra.insert("entry_points_seen".into(), json!(total));
+    out.extra.insert("not_driven".into(), json!(missing));
+    out.extra.insert("not_driven_because".into(), json!(NOT_DRIVEN.iter().map(|(f, n, w)| format!("{}::{} – {}", f, n, w)).collect::<Vec<_>>()));
+}
+
+/// (o) every op runs under a watchdog: an op that does not finish is a call into the code under test that
+/// never returned. The oracle line is appended, the run is abandoned (an in-process call cannot be cancelled).
+fn spawn_watchdog(dir: std::path::PathBuf, limit: std::time::Duration) -> Arc<Mutex<(std::time::Instant, String)>> {
+    let cur = Arc::new(Mutex::new((std::time::Instant::now(), String::new())));
+    let c2 = cur.clone();
+    std::thread::spawn(move || loop {
+        std::thread::sleep(std::time::Duration::from_millis(500));
+        let (t0, op) = c2.lock().unwrap().clone();
+        if !op.is_empty() && t0.elapsed() > limit {
+            use std::io::Write;
+            let v = json!({"sig": "router.call_never_returned", "detail": format!("this op did not finish within {:?}: a call into the router / handler / server never returned", limit), "ops": [op]});
+            if let Ok(mut f) = std::fs::OpenOptions::new().append(true).create(true).open(dir.join("oracle.txt")) {
+                let _ = writeln!(f, "{}", v);
+            }
+            eprintln!("fam_router: watchdog expired, abandoning the run");
+            std::process::exit(3);
+        }
+    });
+    cur
+}
+
 fn main() {
+    if std::env::args().any(|a| a == "--check-entry-points") {
+        let dir = std::env::temp_dir().join(format!("fam_router_ep_{}", std::process::id()));
+        std::fs::create_dir_all(&dir).ok();
+        let mut out = Out::new(&dir);
+        entry_point_audit(&mut out);
+        println!("{}", serde_json::to_string_pretty(&out.extra).unwrap());
+        let bad = out.extra.get("not_driven").and_then(|v| v.as_array()).map(|a| !a.is_empty()).unwrap_or(false);
+        let _ = std::fs::remove_dir_all(&dir);
+        std::process::exit(if bad { 1 } else { 0 });
+    }
     let args = Args::parse();
     quiet_panics();
     let mut out = Out::new(&args.out);
+    entry_point_audit(&mut out);
+    let watch = spawn_watchdog(args.out.clone(), std::time::Duration::from_secs(if args.thorough() { 120 } else { 60 }));
     out.rule = "(i) random registration orders of routes (all with_* registrars), registry mounts, struct mounts and tracing middleware over small overlapping path pools, a `get` after every registration; non-trivial = some middleware or mount present. (ii) prefix/path pairs built from the prefix (itself, normalised, minus a char, plus tails with and without '/'); (iii) struct mounts with relative paths of 0..40 segments biased to 15/16/17/18/40, empty segments, well-formed ~0/~1 escapes; (v) a #[derive(RepeStruct)] struct (plain / readonly / nested x2 fields, 3 methods) mounted at several roots via register_/with_struct_shared: reads, writes (JSON/UTF-8/BEVE/garbage/bad format), calls, invalid paths and subpaths, deep paths; (vi) a hand-written spy RepeStruct behind 1-3 levels of #[repe(nested)] fields of derived structs, remaining paths with empty tokens at every position, against the RFC 6901 tokens and against the same spy mounted directly at the longer prefix; (iv) every handler kind x body-format codes {0..4,255,4096,65535} x valid/near-valid/arbitrary bodies through handle/handle_with_ctx/handle_view of the plain, blocking and middleware-wrapped handler; non-trivial = reaches the decoder or a known format code".into();
     let lines = match args.replay_ops() {
         Some(l) => l,
@@ -2309,8 +2482,10 @@ fn main() {
         if out.oracle_failures >= 12 {
             break; // a broken tree has shown itself: stop early, the replays are written
         }
+        *watch.lock().unwrap() = (std::time::Instant::now(), line.clone());
         exec_line(&mut out, &mut sc, &mut ds, line);
     }
+    *watch.lock().unwrap() = (std::time::Instant::now(), String::new());
     out.extra.insert("ops".into(), json!(lines.len()));
     out.finish();
 }
